@@ -220,7 +220,62 @@ def many_intervals(ctx, n_spells):
         ctx.violation("impl-violation", "c13Holds", {"input": inp, "impl": {"recession_interval": t["recession_interval"][:5]}, "oracle": o})
 
 
+def grid_stream(ctx, n):
+    """`load` + `set-zeta-grid` alone on short records whose levels are typed in decimals (a 0.1 mm logger) with decimal
+    steps: the grid must be the model's zetaGrid on the float quotients, bit for bit, and cover the observed range"""
+    from . import cli
+    import os
+    rng = ctx.rng
+    ob = "discrete_zeta = model zetaGrid at Float (floor/ceil of the float quotients)"
+    for i in range(n):
+        step_s = rng.choice(["0.1", "0.2", "0.3", "0.7", "0.5", "1", "2.5", "0.25", "0.05"])
+        step = float(step_s)
+        q = rng.choice([0.1, 0.1, 0.05, 0.25, 1.0])
+        base = rng.randint(-3000, 500)
+        vals = [round((base + rng.randint(0, 60)) * q, 2) for _ in range(rng.randint(2, 6))]
+        if rng.random() < 0.6:
+            # the extremes exactly on multiples of the step, as typed
+            k_hi = int(round(max(vals) / step))
+            vals[rng.randrange(len(vals))] = float(repr(round(k_hi * step, 6)))
+            vals = [min(v, max(vals)) for v in vals]
+        dt = 3600
+        t0 = 1500000000 // dt * dt
+        rows = ([(t0 + k * dt, 0.0) for k in range(len(vals))], [(t0 + k * dt, 0.1) for k in range(len(vals) + 2)],
+                [(t0 + k * dt, v) for k, v in enumerate(vals)])
+        files = cli.write_dataset(ctx.tmp, "g%d" % i, *rows)
+        db = ctx.scratch("g%d.sqlite3" % i)
+        r1 = cli.load(db, files)
+        r2 = cli.run(["set-zeta-grid", db, "-d", step_s])
+        d = cli.dump(db, ["discrete_zeta", "zeta_grid", "water_level"])
+        for p_ in list(files) + [db]:
+            os.path.exists(p_) and os.remove(p_)
+        inp = {"levels_mm": vals, "zeta_step": step_s, "argv": ["load", "set-zeta-grid -d " + step_s]}
+        ctx.case(("c13-grid", tuple(vals), step_s), True)
+        if r1[0] != "ok" or r2[0] != "ok" or not isinstance(d.get("discrete_zeta"), list):
+            ctx.obligation(ob, False)
+            ctx.violation("impl-violation", "c13Holds", {"input": inp, "impl": [list(r1), list(r2)], "oracle": {
+                "name": "c13Holds", "result": False, "witness": {"why": "`load` / `set-zeta-grid` fail on a short decimal record"}}})
+            continue
+        zs = [v for _e, v in d["water_level"]]
+        got = [r[0] for r in d["discrete_zeta"]]
+        mg = ctx.driver.call("zetagrid.f", {"step": f2h(step), "zmin": f2h(min(zs)), "zmax": f2h(max(zs))})
+        same = got == mg
+        # the property's clause, on the quotients the tool itself forms (one IEEE division each)
+        lo_q, hi_q = min(zs) / step, max(zs) / step
+        need = list(range(math.floor(lo_q), math.ceil(hi_q)))
+        covers = all(k in set(got) for k in need)
+        ctx.obligation(ob, same and covers)
+        if not covers:
+            ctx.violation("impl-violation", "c13Holds", {"input": inp, "impl": got, "model": mg, "oracle": {
+                "name": "c13Holds", "result": False,
+                "witness": {"why": "the grid does not cover the observed range: a level that a crossing of this record can carry is missing",
+                            "missing": [k for k in need if k not in set(got)][:4], "lowest_and_highest_quotient": [lo_q, hi_q]}}})
+        elif not same:
+            ctx.corr_break(ob, {"input": inp, "impl": got, "model": mg})
+
+
 def run(ctx):
+    grid_stream(ctx, 120 if ctx.tier == "quick" else 3000)
     for _ in range(1 if ctx.tier == "quick" else 3):
         many_intervals(ctx, ctx.rng.randint(4700, 5200) if ctx.tier == "quick" else ctx.rng.randint(5000, 7000))
     n = 24 if ctx.tier == "quick" else 600
